@@ -356,6 +356,62 @@ pub fn run_c13(a: &Args, rep: &mut Report) {
             }
         }
     }
+    // ---- long sources: line, instruction and slot counts around 2^8, 2^12, 2^16, 125,000 and up to
+    // the 1,000,000-instruction limit (every line a documented instruction; expected bytes from the
+    // reference encoder; a wide load counts two slots) ----
+    if !cfg!(miri) {
+        let lens: &[usize] = if a.tier == "quick" { &[127, 128, 255, 256, 257, 300, 4_095, 4_096, 4_097, 32_768, 65_535, 65_536, 65_537, 70_000, 125_000, 125_001, 131_072, 200_000, 500_000, 1_000_000] }
+                             else { &[127, 128, 129, 255, 256, 257, 300, 511, 512, 513, 1_000, 4_095, 4_096, 4_097, 10_000, 32_767, 32_768, 32_769, 65_535, 65_536, 65_537, 70_000, 100_000, 125_000, 125_001, 131_071, 131_072, 131_073, 200_000, 262_144, 500_000, 999_999, 1_000_000] };
+        for (i, l) in lens.iter().enumerate() {
+            for flavour in 0..3usize {
+                if (i * 3 + flavour) as u64 % a.nshards != a.shard % a.nshards {
+                    continue;
+                }
+                // flavour 0: mixed instructions, `l` SLOTS; 1: mixed, `l` LINES; 2: wide loads only (l slots)
+                let mut text = String::new();
+                let mut bytes: Vec<u8> = Vec::with_capacity(l * 8 + 16);
+                let (mut lines, mut slots) = (0usize, 0usize);
+                loop {
+                    let done = match flavour { 1 => lines >= *l, 2 => slots + 2 > *l, _ => slots >= *l };
+                    if done {
+                        break;
+                    }
+                    let (name, kind, _) = &table[rng.below(table.len() as u64) as usize];
+                    if flavour == 2 && name != "lddw" {
+                        continue;
+                    }
+                    let ops = gen_ops(&mut rng, *kind);
+                    let Some(enc) = ref_encode(&table, name, &ops) else { continue };
+                    if flavour != 1 && slots + enc.len() > *l {
+                        continue; // a wide load would overshoot the slot count: draw again
+                    }
+                    text.push_str(&render(&mut rng, name, &ops, Some(*kind)));
+                    text.push('\n');
+                    slots += enc.len();
+                    lines += 1;
+                    for i in enc {
+                        bytes.extend_from_slice(&i.bytes());
+                    }
+                }
+                rep.set("long_sources", format!("{}:{l}", ["slots", "lines", "wide-loads-only"][flavour]));
+                rep.count("long_sources_assembled");
+                rep.case(Some(fnv(text.as_bytes())));
+                let got = sys::catch(|| assemble(&text));
+                let bad = match &got {
+                    Err(p) => Some(("panic", format!("assemble panicked: {p}"))),
+                    Ok(Ok(b)) if *b == bytes => None,
+                    Ok(Ok(b)) => {
+                        let first = b.chunks(8).zip(bytes.chunks(8)).position(|(x, y)| x != y);
+                        Some(("wrong-bytes", format!("{} bytes emitted, {} expected; first differing slot: {:?}", b.len(), bytes.len(), first)))
+                    }
+                    Ok(Err(m)) => Some(("wrongly-rejected", format!("valid text refused: {m}"))),
+                };
+                if let Some((kind, detail)) = bad {
+                    rep.violation(&format!("C13:{kind}:long-source"), format!("source of {lines} lines / {slots} instruction slots: {detail}"), json!({"kind": "long-asm-case", "lines": lines, "slots": slots, "flavour": flavour, "head": text.chars().take(400).collect::<String>()}));
+                }
+            }
+        }
+    }
 }
 
 fn class_of_ops(ops: &[Opnd]) -> String {
